@@ -1265,11 +1265,12 @@ Definition fres_writes (f : fres) : list bwrite * bool :=
    forallb (fun w => match w with Some _ => true | None => false end) (f_writes f)).
 
 (* the Layer-B events of one HTTP request *)
-Definition hreq_events (now : Z) (f : fres) : list event :=
+(* [acked]: every buffer write succeeded (the import handler only reaches its FlushAll then) *)
+Definition hreq_events (now : Z) (f : fres) (acked : bool) : list event :=
   let '(ws, tail_ok) := fres_writes f in
   match ws, tail_ok with
-  | [], true => if f_flush f then [EFlush] else []
-  | _, _ => EWrite now ws tail_ok :: (if f_flush f then [EFlush] else [])
+  | [], true => if f_flush f && acked then [EFlush] else []
+  | _, _ => EWrite now ws tail_ok :: (if f_flush f && acked then [EFlush] else [])
   end.
 
 Definition idsan (b : bytes) : bytes := b.
@@ -1345,7 +1346,7 @@ Fixpoint run_case (v : variant) (s : state) (evs : list hevent) : state * bool :
                 let '(ws, tail_ok) := fres_writes f in
                 let acked := let '(_, _, ok) := write_all v idsan now s ws in ok && tail_ok in
                 let st := if acked then f_status f else 500 in
-                let s' := run_events v idsan s (hreq_events now f) in
+                let s' := run_events v idsan s (hreq_events now f acked) in
                 let cd := map (dir_of (f_db f)) (f_checked f) in
                 (s', (st =? status) &&
                      (if status =? 403 then set_sub checked cd && negb (Nat.eqb (List.length checked) 0)
